@@ -187,27 +187,7 @@ func runC04(p *Prog, r *Report) {
 	}
 
 	if want("C04.8") {
-		r.Begin("C04.8", "E-ORD", "journal recovery: a replayed journal file is removed only after the edit that supersedes it (tables + next journal number + sequence) was committed", 5)
-		if fn := resolveFn(p, r, "leveldb", "(*DB).recoverJournal"); fn != nil {
-			commit := evCall(fCommit)
-			rm := evStorageInvoke("Remove")
-			// a journal file is opened for replay; from then on it may be removed only after a commit
-			ofdStore := evCall("(*leveldb.iStorage).Open")
-			ordPrecede(p, r, fn, "commit-before-remove", nil, commit, "s.commit", rm, "stor.Remove(ofd)")
-			ordNeverAfter(p, r, fn, "remove-needs-fresh-commit", nil, ofdStore, "stor.Open(fd) of a journal to replay", rm, "stor.Remove(ofd)", commit, "s.commit")
-			ordNeverAfter(p, r, fn, "commit-carries-journal", nil, ofdStore, "stor.Open(fd) of a journal to replay", commit, "s.commit", evCall(fSetJournalNum), "rec.setJournalNum")
-			ordNeverAfter(p, r, fn, "commit-carries-seq", nil, ofdStore, "stor.Open(fd) of a journal to replay", commit, "s.commit", evCall(fSetSeqNum), "rec.setSeqNum")
-			ordNotOnError(p, r, fn, "no-remove-on-commit-error", mErrOfCall(fCommit), "s.commit", commit, rm, "stor.Remove(ofd)")
-			ordPrecede(p, r, fn, "newMem-before-final-commit", nil, evCall("(*leveldb.DB).newMem"), "db.newMem", andPred(commit, func(in ssa.Instruction) bool {
-				// the commit after the loop: not inside a loop body => no path from it back to itself
-				return findPath([]point{{in.Block(), indexOf(in) + 1}}, nil, nil, func(x ssa.Instruction) bool { return x == in }) == nil
-			}), "final s.commit")
-			// seq recorded = db.seq (restored by the replay)
-			checkCallArgAll(p, r, fn, "seq-is-db.seq", fSetSeqNum, 1, mFieldLoad(tDB, "seq"), "db.seq")
-			// flushed tables precede the commit that drops the journal
-			ordOnSuccess(p, r, fn, "final-commit", nil, commit, "s.commit")
-		}
-		r.End()
+		ruleJournalRecoveryOrder(p, r, "C04.8")
 	}
 
 	if want("C04.9") {
@@ -428,6 +408,32 @@ func ruleTableDurability(p *Prog, r *Report, rule string) {
 				return ok && closureCallee(&c.Call) == build
 			}, "buildTable", evCallClosure(build), evStorageInvoke("Rename"), "stor.Rename(tmp, fd)")
 		}
+	}
+	r.End()
+}
+
+// ruleJournalRecoveryOrder: C04.8 (also C08.10): a replayed journal is removed only after the edit
+// that supersedes it is in the manifest.
+func ruleJournalRecoveryOrder(p *Prog, r *Report, rule string) {
+	r.Begin(rule, "E-ORD", "journal recovery: a replayed journal file is removed only after the edit that supersedes it (tables + next journal number + sequence) was committed", 5)
+	if fn := resolveFn(p, r, "leveldb", "(*DB).recoverJournal"); fn != nil {
+		commit := evCall(fCommit)
+		rm := evStorageInvoke("Remove")
+		// a journal file is opened for replay; from then on it may be removed only after a commit
+		ofdStore := evCall("(*leveldb.iStorage).Open")
+		ordPrecede(p, r, fn, "commit-before-remove", nil, commit, "s.commit", rm, "stor.Remove(ofd)")
+		ordNeverAfter(p, r, fn, "remove-needs-fresh-commit", nil, ofdStore, "stor.Open(fd) of a journal to replay", rm, "stor.Remove(ofd)", commit, "s.commit")
+		ordNeverAfter(p, r, fn, "commit-carries-journal", nil, ofdStore, "stor.Open(fd) of a journal to replay", commit, "s.commit", evCall(fSetJournalNum), "rec.setJournalNum")
+		ordNeverAfter(p, r, fn, "commit-carries-seq", nil, ofdStore, "stor.Open(fd) of a journal to replay", commit, "s.commit", evCall(fSetSeqNum), "rec.setSeqNum")
+		ordNotOnError(p, r, fn, "no-remove-on-commit-error", mErrOfCall(fCommit), "s.commit", commit, rm, "stor.Remove(ofd)")
+		ordPrecede(p, r, fn, "newMem-before-final-commit", nil, evCall("(*leveldb.DB).newMem"), "db.newMem", andPred(commit, func(in ssa.Instruction) bool {
+			// the commit after the loop: not inside a loop body => no path from it back to itself
+			return findPath([]point{{in.Block(), indexOf(in) + 1}}, nil, nil, func(x ssa.Instruction) bool { return x == in }) == nil
+		}), "final s.commit")
+		// seq recorded = db.seq (restored by the replay)
+		checkCallArgAll(p, r, fn, "seq-is-db.seq", fSetSeqNum, 1, mFieldLoad(tDB, "seq"), "db.seq")
+		// flushed tables precede the commit that drops the journal
+		ordOnSuccess(p, r, fn, "final-commit", nil, commit, "s.commit")
 	}
 	r.End()
 }
